@@ -154,7 +154,7 @@ fn logical<T: Copy>(buf: &[T], shape: &[usize], strides: &[usize]) -> Vec<T> {
     }
 }
 
-const FORMATS: [&str; 8] = [
+const FORMATS: [&str; 9] = [
     "npy (buffer)",
     "npy (file)",
     "npz 1 entry [a]",
@@ -163,6 +163,7 @@ const FORMATS: [&str; 8] = [
     "safetensors 1 entry [a]",
     "safetensors 3 entries [a/b, ä, x.npy]",
     "safetensors (file)",
+    "npz 3 entries [w, w.npy.npy, x.npy.npy.npy] (names that themselves end in .npy)",
 ];
 
 struct RtOut {
@@ -218,10 +219,11 @@ where
                 npy::write_to_file(&p, view.clone()).map_err(|e| format!("write failed: {e}"))?;
                 check_value(npy::read_from_file(&p).map_err(|e| e.to_string()), shape, &want, "npy file")
             }
-            2 | 3 | 4 => {
+            2 | 3 | 4 | 8 => {
                 let names: &[&str] = match format {
                     2 => &["a"],
                     3 => &["a", "ä"],
+                    8 => &["w", "w.npy.npy", "x.npy.npy.npy"],
                     _ => &["a/b", "x.npy", "ä"],
                 };
                 let mut cur = Cursor::new(Vec::new());
